@@ -67,7 +67,11 @@ pub fn batch(index: u64, mut rng: Rng, tier: Tier) -> Outcome {
     let v = genesis(Policy::default());
     let accts = make_accounts(&v, 2, 17_000 + index, &fil(1000));
     let from = accts[0];
-    let nprog = tier.pick(160, 400);
+    // The interpreter may legally grow memory up to 4 GiB for one operand before it rejects another one
+    // (e.g. MCOPY evaluates the source range first): cap the actor's memory through the guarded hook so
+    // that 16 workers cannot exhaust the machine; a run stopped by the cap is not compared
+    fil_actor_evm::interpreter::verif::reset(u64::MAX, 64 << 20);
+    let nprog = tier.pick(160, 160); // larger worlds get disproportionately slower (state tree growth): more batches instead
     let mut last_structured: Option<Prog> = None;
     let mut agreed = 0u64;
     for pi in 0..nprog {
@@ -117,6 +121,10 @@ pub fn batch(index: u64, mut rng: Rng, tier: Tier) -> Outcome {
         for (ci, (cd, exp)) in p.calldatas.iter().zip(expected.iter()).enumerate() {
             let (r, _) = evm::invoke(&v, &from, &caddr, cd, &TokenAmount::zero());
             o.count("invocations");
+            if fil_actor_evm::interpreter::verif::take().watchdog {
+                o.count("runs_stopped_by_the_64MiB_memory_cap_not_compared");
+                continue;
+            }
             if r.panicked {
                 o.violate("total", "C18/panic", format!("program {} calldata {}: actor panicked", hex::encode(&p.code), hex::encode(cd)));
                 v.panics.borrow_mut().clear();
@@ -182,7 +190,7 @@ fn short(c: &Class) -> String {
 pub fn run(cfg: &Cfg) -> i32 {
     let mut agg = Agg::new(cfg);
     let tier = cfg.tier;
-    agg.run_parallel("programs", tier.pick(640, 30000), Duration::from_secs(tier.pick(200, 1700)), |i, rng| {
+    agg.run_parallel("programs", tier.pick(640, 60000), Duration::from_secs(tier.pick(200, 1500)), |i, rng| {
         let mut o = batch(i, rng, tier);
         o.violations.retain(|x| x.signature.starts_with("C17/"));
         o
@@ -194,7 +202,7 @@ pub fn run(cfg: &Cfg) -> i32 {
     };
     agg.finish(
         "exploration",
-        "one evaluation = a batch of 160-400 programs in one world: single instructions over boundary operands (0, 1, 2^k, 2^k+-1, 2^255, 2^256-1, shift/byte/sign-extension edges, random), structured programs (forward/backward jumps, bounded loops, memory incl. MCOPY and zero-length accesses at huge offsets, storage and transient storage, calldata/code copy, KECCAK256, deep stacks, early halts), byte-level mutations of those, and stack-limit programs; every program is first run on the reference interpreter (screening out unbounded loops and mid-range memory), then deployed as a real contract and invoked with 1-2 calldatas; outcome class + data and every touched storage slot must agree. Non-trivial batch = at least 50 agreeing invocations",
+        "one evaluation = a batch of 160 programs in one world: single instructions over boundary operands (0, 1, 2^k, 2^k+-1, 2^255, 2^256-1, shift/byte/sign-extension edges, random), structured programs (forward/backward jumps, bounded loops, memory incl. MCOPY and zero-length accesses at huge offsets, storage and transient storage, calldata/code copy, KECCAK256, deep stacks, early halts), byte-level mutations of those, and stack-limit programs; every program is first run on the reference interpreter (screening out unbounded loops and mid-range memory), then deployed as a real contract and invoked with 1-2 calldatas; outcome class + data and every touched storage slot must agree. Non-trivial batch = at least 50 agreeing invocations",
         tier.pick(200, 5000),
         &["the reference interpreter (harness/src/refevm.rs, own Keccak, num-bigint arithmetic) encodes my reading of the Yellow Paper / EIP-3855/5656/1153/7939", "no gas model: FEVM does not meter EVM gas", "environment opcodes, calls, creates and logs are outside C17's families"],
         serde_json::json!({"family_opcodes_never_executed": unseen}),
